@@ -506,6 +506,9 @@ def do_check(prop, tier, only=None, only_config=None):
     if infra:
         print("INFRA: " + "\n".join(infra)[:4000])
         return 3
+    if not samples:
+        print("INCONCLUSIVE: the run recorded no sample case")
+        return 3
     floor = spec.get("floor", 1)
     if evaluations < floor or len(distinct) < 2:
         print("INCONCLUSIVE: monitors observed too little (evaluations=%d, distinct=%d)" % (evaluations, len(distinct)))
